@@ -975,6 +975,7 @@ int main(int argc, char **argv) {
           // swap_deep: each range has room for the elements of the other one
           runSwapDeep<T>("swap_deep", n1, std::max(n1, n2) + e1, n2, std::max(n1, n2) + e2);
           runSwapDeep<TR>("swap_deep_tr", n1, std::max(n1, n2) + e1, n2, std::max(n1, n2) + e2);
+          runSwapDeep<TM>("swap_deep_mt", n1, std::max(n1, n2) + e1, n2, std::max(n1, n2) + e2);  // every move is an event (coq/SwapThrow.v)
           // move_n: n1 = the source, n2 = the elements the destination holds before; the destination has room for the source
           runMoveN<T>("move_n", n1, n1 + e1, n2, std::max(n1, n2) + e2);
           runMoveN<TR>("move_n_tr", n1, n1 + e1, n2, std::max(n1, n2) + e2);
